@@ -288,16 +288,15 @@ def selfTupleHeap : Heap where
     · simp [h1]
     · simp [h1] at he
 
-theorem selfTuple_recurse_deep {σ : Type} (S : MarkSet σ) (m : σ) (hm : S.mem 4096 m = true) :
-    ∀ d, (level S { Cfg.current with guarded := false } selfTupleHeap d).recurse (.tup "Tuple" [4096]) m = .deep := by
+theorem selfTuple_recurse_deep {σ : Type} (S : MarkSet σ) (c : Cfg) (hl : c.isLeaf "Tuple" = false)
+    (hk : c.hasMark "Tuple" = true) (hg : c.guarded = false) (m : σ) (hm : S.mem 4096 m = true) :
+    ∀ d, (level S c selfTupleHeap d).recurse (.tup "Tuple" [4096]) m = .deep := by
   intro d
   induction d with
   | zero => rfl
   | succ d ih =>
     rw [level_recurse_succ]
-    have hl : ({ Cfg.current with guarded := false } : Cfg).isLeaf "Tuple" = false := by decide
-    have hk : ({ Cfg.current with guarded := false } : Cfg).hasMark "Tuple" = true := by decide
-    simp only [Obj.ty, hl, hk, if_true, markInst, foldRes, callback]
+    simp only [Obj.ty, hl, hk, if_true, markInst, foldRes, callback, hg]
     cases d with
     | zero => rfl
     | succ d =>
@@ -308,8 +307,9 @@ theorem selfTuple_recurse_deep {σ : Type} (S : MarkSet σ) (m : σ) (hm : S.mem
       rw [ih]
       rfl
 
-theorem selfTuple_diverges {σ : Type} (S : MarkSet σ) (d : Nat) :
-    (level S { Cfg.current with guarded := false } selfTupleHeap d).item 4096 S.empty = .deep := by
+theorem selfTuple_diverges {σ : Type} (S : MarkSet σ) (c : Cfg) (hl : c.isLeaf "Tuple" = false)
+    (hk : c.hasMark "Tuple" = true) (hg : c.guarded = false) (d : Nat) :
+    (level S c selfTupleHeap d).item 4096 S.empty = .deep := by
   cases d with
   | zero => rfl
   | succ d =>
@@ -317,7 +317,7 @@ theorem selfTuple_diverges {σ : Type} (S : MarkSet σ) (d : Nat) :
     have hlook : selfTupleHeap.lookup 4096 = some ⟨.tup "Tuple" [4096], false⟩ := rfl
     have hchk : ((4096 : Nat) % 8 == 0 && decide (selfTupleHeap.minptr ≤ 4096) && decide (4096 ≤ selfTupleHeap.maxptr)) = true := by decide
     simp only [hchk, if_true, hlook, S.mem_empty]
-    exact selfTuple_recurse_deep S _ (by rw [S.mem_insert]; simp) d
+    exact selfTuple_recurse_deep S c hl hk hg _ (by rw [S.mem_insert]; simp) d
 
 end Cello.Heap
 
@@ -709,4 +709,119 @@ theorem gcMarkRec_agree (hg : c.guarded = true) (ht : c.tlsCallback = true) (wf 
       rw [e3, e2, e1]
 
 end phases
+end Cello.Heap
+
+namespace Cello.Heap
+
+theorem demoHeap_safe : demoHeap.CallbackSafe := by
+  intro a e he w hw
+  simp only [demoHeap] at he
+  by_cases h1 : a = 4096
+  · simp only [h1, if_true] at he; cases he; simp [handed, handedL] at hw
+  by_cases h2 : a = 4160
+  · simp only [h1, h2, if_true, if_false] at he
+    cases he
+    simp only [handed, List.mem_cons, List.not_mem_nil, or_false] at hw
+    rcases hw with hw | hw <;> subst hw <;> decide
+  by_cases h3 : a = 4224
+  · simp only [h1, h2, h3, if_true, if_false] at he; cases he; simp [handed] at hw
+  by_cases h4 : a = 4288
+  · simp only [h1, h2, h3, h4, if_true, if_false] at he; cases he; simp [handed] at hw
+  by_cases h5 : a = 4352
+  · simp only [h1, h2, h3, h4, h5, if_true, if_false] at he; cases he; simp [handed] at hw
+  · simp [h1, h2, h3, h4, h5] at he
+
+end Cello.Heap
+
+/-! ### F27: the recursion depth grows with the length of a chain (no fixed stack bound suffices) -/
+
+namespace Cello.Heap
+
+/-- `n` Refs at addresses 8, 16, …, 8n, each pointing to the next; the last one points past the heap -/
+def chainHeap (n : Nat) : Heap where
+  lookup := fun (a : Nat) => if a % 8 = 0 ∧ 8 ≤ a ∧ a ≤ 8 * n then some ⟨.raw "Ref" [a + 8], false⟩ else none
+  regs := (List.range n).map (fun k => 8 * (k + 1))
+  minptr := 8
+  maxptr := 8 * n
+  complete := by
+    intro (a : Nat) e he
+    by_cases hc : a % 8 = 0 ∧ 8 ≤ a ∧ a ≤ 8 * n
+    · obtain ⟨h1, h2, h3⟩ := hc
+      simp only [List.mem_map, List.mem_range]
+      refine ⟨a / 8 - 1, ?_, ?_⟩
+      · show (a / 8 - 1 : Nat) < n
+        omega
+      · show (8 * (a / 8 - 1 + 1) : Nat) = a
+        omega
+    · simp [hc] at he
+
+theorem chainHeap_wf (n : Nat) : (chainHeap n).WF := by
+  constructor <;> intro a e he <;> simp only [chainHeap] at he ⊢ <;> split at he <;> first | (cases he) | skip
+  · rename_i hc; exact hc.1
+  · rename_i hc; exact ⟨hc.2.1, hc.2.2⟩
+
+theorem chainHeap_safe (n : Nat) : (chainHeap n).CallbackSafe := by
+  intro a e he w hw
+  simp only [chainHeap] at he
+  split at he
+  · cases he; simp [handed] at hw
+  · cases he
+
+section chain
+variable {σ : Type} (S : MarkSet σ) (c : Cfg)
+
+theorem chain_item_deep (hl : c.isLeaf "Ref" = false) (hk : c.hasMark "Ref" = false) (hs : c.scanInclusive = true)
+    (n : Nat) : ∀ (d k : Nat) (m : σ), k < n → d ≤ 2 * (n - k) →
+      (∀ j, k ≤ j → j < n → S.mem (8 * (j + 1)) m = false) →
+      (level S c (chainHeap n) d).item (8 * (k + 1)) m = .deep := by
+  intro d
+  induction d using Nat.strongRecOn with
+  | _ d ih =>
+    intro k m hkn hd hm
+    match d, ih, hd with
+    | 0, _, _ => rfl
+    | 1, _, _ =>
+      rw [level_item_succ]
+      have hlook : (chainHeap n).lookup (8 * (k + 1)) = some ⟨.raw "Ref" [8 * (k + 1) + 8], false⟩ := by
+        simp only [chainHeap]; rw [if_pos]; refine ⟨?_, ?_, ?_⟩ <;> omega
+      have hchk : ((8 * (k + 1)) % 8 == 0 && decide ((chainHeap n).minptr ≤ 8 * (k + 1)) && decide (8 * (k + 1) ≤ (chainHeap n).maxptr)) = true := by
+        have h1 : (8 * (k + 1)) % 8 = 0 := Nat.mul_mod_right 8 (k + 1)
+        have h2 : 8 ≤ 8 * (k + 1) := by omega
+        have h3 : 8 * (k + 1) ≤ 8 * n := by omega
+        simp [chainHeap, h1, h2, h3]
+      simp only [hchk, if_true, hlook, hm k (Nat.le_refl k) hkn]
+      rfl
+    | d + 2, ih, hd =>
+      rw [level_item_succ]
+      have hlook : (chainHeap n).lookup (8 * (k + 1)) = some ⟨.raw "Ref" [8 * (k + 1) + 8], false⟩ := by
+        simp only [chainHeap]; rw [if_pos]; refine ⟨?_, ?_, ?_⟩ <;> omega
+      have hchk : ((8 * (k + 1)) % 8 == 0 && decide ((chainHeap n).minptr ≤ 8 * (k + 1)) && decide (8 * (k + 1) ≤ (chainHeap n).maxptr)) = true := by
+        have h1 : (8 * (k + 1)) % 8 = 0 := Nat.mul_mod_right 8 (k + 1)
+        have h2 : 8 ≤ 8 * (k + 1) := by omega
+        have h3 : 8 * (k + 1) ≤ 8 * n := by omega
+        simp [chainHeap, h1, h2, h3]
+      simp only [hchk, if_true, hlook, hm k (Nat.le_refl k) hkn]
+      rw [level_recurse_succ]
+      simp only [Obj.ty, hl, hk, scanWords, hs, if_true, foldRes]
+      have hnext : 8 * (k + 1) + 8 = 8 * (k + 1 + 1) := by omega
+      rw [hnext]
+      by_cases hd0 : d = 0
+      · subst hd0; rfl
+      · have : (level S c (chainHeap n) d).item (8 * (k + 1 + 1)) (S.insert (8 * (k + 1)) m) = .deep := by
+          apply ih d (by omega) (k + 1) _ (by omega) (by omega)
+          intro j hj1 hj2
+          rw [S.mem_insert, hm j (by omega) hj2]
+          have : (8 * (j + 1) == 8 * (k + 1)) = false := by
+            simp only [beq_eq_false_iff_ne, ne_eq]; omega
+          simp [this]
+        rw [this]; rfl
+
+/-- for every depth budget there is a chain on which the recursive marker exceeds it -/
+theorem chain_exceeds_budget (hl : c.isLeaf "Ref" = false) (hk : c.hasMark "Ref" = false) (hs : c.scanInclusive = true)
+    (d : Nat) : (level S c (chainHeap (d + 1)) d).item 8 S.empty = .deep := by
+  have := chain_item_deep S c hl hk hs (d + 1) d 0 S.empty (by omega) (by omega) (fun j _ _ => S.mem_empty _)
+  simpa using this
+
+end chain
+
 end Cello.Heap
